@@ -19,6 +19,8 @@ class RFun (α : Type) where
   ln : α → α
   log10 : α → α
   log2 : α → α
+  /-- `f64::exp2` (what `2f64.powf(y)` is compiled to, see `pow2Lit`) -/
+  exp2 : α → α
   sqrt : α → α
   sin : α → α
   cos : α → α
@@ -190,6 +192,11 @@ instance (priority := high) instInhabitedIntPanic : Inhabited Int := ⟨panicInt
 @[inline] def sdiv (a b : Int) : Int := if b = 0 then panicInt else Int.tdiv a b
 @[inline] def smod (a b : Int) : Int := if b = 0 then panicInt else Int.tmod a b
 
+/-- The default of `Result<T, E>` is `Ok(sentinel)`, never an error variant: a panic or an exhausted loop
+    inside a `Result`-returning function must not be mistaken for a returned `Err` (core's instance would
+    give `.error default`). -/
+instance (priority := high) instInhabitedExceptPanic {ε β : Type} [Inhabited β] : Inhabited (Except ε β) := ⟨.ok default⟩
+
 /-- value standing for a Rust panic in value position (see `unwrapO`) -/
 @[inline] def panicV {β : Type} [Inhabited β] : β := default
 
@@ -209,6 +216,15 @@ def listSwap {β : Type} [Inhabited β] (l : List β) (i j : Int) : List β :=
 section approx
 variable {α : Type} [Add α] [Sub α] [Mul α] [Div α] [Neg α] [LT α] [LE α] [BEq α]
   [DecidableLT α] [DecidableLE α] [OfScientific α] [Inhabited α] [RFun α]
+
+/-- `x.powf(2.0)` with the exponent written as a literal.  rustc/LLVM (SimplifyLibCalls, no fast-math
+    needed) compiles `pow(x, 2.0)` to `x * x`; glibc's `pow(x, 2.0)` differs from `x * x` by one ulp on
+    about 0.08 % of arguments (measured), so the executable model follows the compiled code.  Over ℝ both
+    are `x ^ 2` (`powfLit2_real`). -/
+def powfLit2 (x : α) : α := x * x
+/-- `(2.0f64).powf(y)` with the base written as a literal: compiled to `exp2(y)` (one ulp off glibc's
+    `pow(2.0, y)` on about 0.1 % of arguments, measured). -/
+def pow2Lit (y : α) : α := RFun.exp2 y
 
 /-- `f64::clamp` -/
 def fclamp (x lo hi : α) : α := if x < lo then lo else if hi < x then hi else x
